@@ -27,7 +27,7 @@ Record tinfo := mkTI {
   ti_stat : tstat;
   ti_slot : Z;      (* the key returned by the API *)
   ti_g : Z;
-  ti_n : Z;         (* creation index *)
+  ti_n : Z;         (* index of the creating op in the history *)
   ti_eff0 : Z;      (* instant given at creation *)
   ti_t0 : Z         (* Core::now at creation *)
 }.
@@ -46,28 +46,28 @@ Definition v_all (v : verdict) := v07 v && v08 v && v09 v && v10 v && v15 v && v
 Record sstate := mkS {
   s_cnow : Z;
   s_timers : list tinfo;              (* most recent first *)
-  s_count : Z;                        (* timers created so far *)
+  s_count : Z;                        (* ops observed so far (index of the next op) *)
   s_last_ne : option (option Z);      (* result of next_expiry if it was the previous op *)
   s_drain : Z;                        (* consecutive (next_expiry; run at exactly that instant) rounds *)
   s_budget : Z                        (* round budget fixed when such a drain loop starts *)
 }.
 Definition s_init := mkS 0 [] 0 None 0 0.
 
-(** the most recently issued timer of this kind carrying this key *)
-Fixpoint lookup (k : tkind) (slot g : Z) (l : list tinfo) : option tinfo :=
+(** the timer whose key was issued by op number [kref] (a key of the wrong kind cannot be written
+    in Rust; a Default key has kref = -1 and denotes no timer) *)
+Fixpoint lookup (k : tkind) (kref : Z) (l : list tinfo) : option tinfo :=
   match l with
   | [] => None
-  | t :: r => if kind_eqb (ti_kind t) k && (ti_slot t =? slot) && (ti_g t =? g) then Some t else lookup k slot g r
+  | t :: r => if kind_eqb (ti_kind t) k && (ti_n t =? kref) then Some t else lookup k kref r
   end.
 
-Definition key_pending (k : tkind) (slot g : Z) (l : list tinfo) : bool :=
-  match lookup k slot g l with Some t => is_pending (ti_stat t) | None => false end.
+Definition key_pending (k : tkind) (kref : Z) (l : list tinfo) : bool :=
+  match lookup k kref l with Some t => is_pending (ti_stat t) | None => false end.
 
-(** update the most recent timer with this kind and key *)
-Fixpoint update (k : tkind) (slot g : Z) (f : tinfo -> tinfo) (l : list tinfo) : list tinfo :=
+Fixpoint update (k : tkind) (kref : Z) (f : tinfo -> tinfo) (l : list tinfo) : list tinfo :=
   match l with
   | [] => []
-  | t :: r => if kind_eqb (ti_kind t) k && (ti_slot t =? slot) && (ti_g t =? g) then f t :: r else t :: update k slot g f r
+  | t :: r => if kind_eqb (ti_kind t) k && (ti_n t =? kref) then f t :: r else t :: update k kref f r
   end.
 
 Definition set_stat (st : tstat) (t : tinfo) :=
@@ -143,13 +143,13 @@ Definition due (cnow' : Z) (t : tinfo) : bool := is_pending (ti_stat t) && (dead
 Definition new_timer (s : sstate) (k : tkind) (ns cb slot g : Z) : sstate :=
   mkS (s_cnow s)
       (mkTI cb k ns (s_cnow s) Pending slot g (s_count s) ns (s_cnow s) :: s_timers s)
-      (s_count s + 1) None 0 0.
+      (s_count s) None 0 0.
 
 Definition bool_op (s : sstate) (expected b : bool) (l' : list tinfo) : sstate * verdict :=
   (mkS (s_cnow s) l' (s_count s) None 0 0, mkV true true true (Bool.eqb expected b) true true).
 
 (** one observed step.  [out = None] is a panic. *)
-Definition mon_step (s : sstate) (o : top) (out : option tout) : sstate * verdict :=
+Definition mon_step0 (s : sstate) (o : top) (out : option tout) : sstate * verdict :=
   let bad08 := (mkS (s_cnow s) (s_timers s) (s_count s) None 0 0, mkV true false true true true true) in
   let malformed := (mkS (s_cnow s) (s_timers s) (s_count s) None 0 0, mkV false false false false false false) in
   match out with
@@ -160,25 +160,25 @@ Definition mon_step (s : sstate) (o : top) (out : option tout) : sstate * verdic
   | OAfter dur cb, RKey slot g => (new_timer s KFixed (s_cnow s + dur) cb slot g, v_ok)
   | OAddMax ns cb, RKey slot g => (new_timer s KMax ns cb slot g, v_ok)
   | OAddMin ns cb, RKey slot g => (new_timer s KMin ns cb slot g, v_ok)
-  | ODel slot g, RBool b =>
-      let e := key_pending KFixed slot g (s_timers s) in
-      bool_op s e b (if e then update KFixed slot g (set_stat Deleted) (s_timers s) else s_timers s)
-  | ODelMax slot g, RBool b =>
-      let e := key_pending KMax slot g (s_timers s) in
-      bool_op s e b (if e then update KMax slot g (set_stat Deleted) (s_timers s) else s_timers s)
-  | ODelMin slot g, RBool b =>
-      let e := key_pending KMin slot g (s_timers s) in
-      bool_op s e b (if e then update KMin slot g (set_stat Deleted) (s_timers s) else s_timers s)
-  | OActMax slot g, RBool b => bool_op s (key_pending KMax slot g (s_timers s)) b (s_timers s)
-  | OActMin slot g, RBool b => bool_op s (key_pending KMin slot g (s_timers s)) b (s_timers s)
-  | OModMax slot g ns, RBool b =>
-      let e := key_pending KMax slot g (s_timers s) in
-      bool_op s e b (if e then update KMax slot g
+  | ODel kref _ _, RBool b =>
+      let e := key_pending KFixed kref (s_timers s) in
+      bool_op s e b (if e then update KFixed kref (set_stat Deleted) (s_timers s) else s_timers s)
+  | ODelMax kref _ _, RBool b =>
+      let e := key_pending KMax kref (s_timers s) in
+      bool_op s e b (if e then update KMax kref (set_stat Deleted) (s_timers s) else s_timers s)
+  | ODelMin kref _ _, RBool b =>
+      let e := key_pending KMin kref (s_timers s) in
+      bool_op s e b (if e then update KMin kref (set_stat Deleted) (s_timers s) else s_timers s)
+  | OActMax kref _ _, RBool b => bool_op s (key_pending KMax kref (s_timers s)) b (s_timers s)
+  | OActMin kref _ _, RBool b => bool_op s (key_pending KMin kref (s_timers s)) b (s_timers s)
+  | OModMax kref _ _ ns, RBool b =>
+      let e := key_pending KMax kref (s_timers s) in
+      bool_op s e b (if e then update KMax kref
                                  (fun t => if ti_eff t <? ns then set_eff ns (s_cnow s) t else t) (s_timers s)
                      else s_timers s)
-  | OModMin slot g ns, RBool b =>
-      let e := key_pending KMin slot g (s_timers s) in
-      bool_op s e b (if e then update KMin slot g
+  | OModMin kref _ _ ns, RBool b =>
+      let e := key_pending KMin kref (s_timers s) in
+      bool_op s e b (if e then update KMin kref
                                  (fun t => if ns <? ti_eff t then set_eff ns (s_cnow s) t else t) (s_timers s)
                      else s_timers s)
   | ORun ns, RFired ids =>
@@ -229,6 +229,10 @@ Definition mon_step (s : sstate) (o : top) (out : option tout) : sstate * verdic
   | _, _ => malformed
   end
   end.
+
+Definition mon_step (s : sstate) (o : top) (out : option tout) : sstate * verdict :=
+  let '(s1, v) := mon_step0 s o out in
+  (mkS (s_cnow s1) (s_timers s1) (s_count s + 1) (s_last_ne s1) (s_drain s1) (s_budget s1), v).
 
 Fixpoint mon_run (s : sstate) (h : list (top * option tout)) : list verdict :=
   match h with
